@@ -8,13 +8,12 @@ methods are resolved through the real class hierarchy to contracts on the real f
 import z3
 
 from pyvc import ty as T
-from pyvc.api import BOOL, CLASSES, INT, REAL, STR, ClassSpec, Dict, List, Map, Opt, Ref, Set, Tuple, cls, trusted
+from pyvc.api import BOOL, CLASSES, INT, REAL, STR, ClassSpec, Dict, List, Map, Named, Opt, Ref, Set, Tuple, cls, trusted
 from pyvc.core import PYOBJ, Unsupported, Val, fresh, lift
 from pyvc.ops import is_const
 
 # ---- bounding boxes (namedtuple BoundingBox(xMin, yMin, xMax, yMax)) --------------------------------
-BBOX = Tuple(REAL, REAL, REAL, REAL)
-BBOX_FIELDS = {"xMin": 0, "yMin": 1, "xMax": 2, "yMax": 3}
+BBOX = Named("BoundingBox", xMin=INT, yMin=INT, xMax=INT, yMax=INT)
 
 
 # ---- TTFont: one optional table object per tag --------------------------------------------------------
@@ -94,7 +93,7 @@ def _mtx_setitem(ex, st, self, idx, v, node):
 
 
 for _t in ("hmtx", "vmtx"):
-    cls("table_" + _t, fields={"metrics": Dict(STR, Tuple(INT, REAL))}, dynamic=True, getitem=_mtx_getitem, setitem=_mtx_setitem,
+    cls("table_" + _t, fields={"metrics": Dict(STR, Tuple(INT, INT))}, dynamic=True, getitem=_mtx_getitem, setitem=_mtx_setitem,
         notes="metrics: glyph name -> (advance, side bearing)")
 
 # ---- cmap subtables ---------------------------------------------------------------------------------------
@@ -180,3 +179,20 @@ cls(
     repo="ufo2ft.outlineCompiler:BaseOutlineCompiler",
     notes="BaseOutlineCompiler instance; glyphBoundingBoxes/fontBoundingBox are cached properties read as fields",
 )
+
+
+# ---- getAttrWithFallback: summary used at call sites ---------------------------------------------------------
+# The function itself is verified against its own contract under C16 (contracts/c16.py); callers only need
+# "the value is a function of (info, attribute name)", so call sites see an uninterpreted symbol per attribute.
+INFO_ATTR_TYPES = {}
+
+
+@trusted("ufo2ft.fontInfoData.getAttrWithFallback",
+         "getAttrWithFallback(info, attr) is a function of (info, attr) [summary of the contract proved under C16]; numeric unless typed otherwise")
+def _gawf(ex, st, args, kwargs, node):
+    info, attr = args
+    if not is_const(attr):
+        raise Unsupported("getAttrWithFallback with a computed attribute name", node)
+    t = INFO_ATTR_TYPES.get(attr.py, REAL)
+    f = z3.Function("info_" + attr.py, T.RefSort, t.sort())
+    return Val(t, f(lift(info)))
